@@ -14,6 +14,18 @@ FW_RULE = ("cases = random validated machine sets x call histories drawn from on
            "A case is non-trivial when %s; distinct = distinct wire encodings.")
 
 PROPS = {
+    "C20": {
+        "sub": "c20",
+        "n": {"quick": 2000, "thorough": 150000},
+        "coq_sample": {"quick": 20, "thorough": 200},
+        "rule": ("cases = 0-4 deterministic machines (probability-1 transitions, constant distributions, no time-dependent limits) started through maybenot_start "
+                 "(valid arguments, and each invalid kind: null out pointer, non-UTF-8 string, a line that is not a machine, a fraction outside [0,1]/NaN, CRLF line "
+                 "endings) and driven through maybenot_on_events with batches of 0-6 events over all 10 event types and arbitrary machine ids, the output buffer having "
+                 "exactly num_machines slots between canary regions; every written action, the count, the result codes and the null-argument behaviour must equal the "
+                 "model's and the Rust framework's run side by side. Non-trivial = at least one action was written."),
+        "assumptions": ["deterministic machines only (the API's OS-seeded RNG and wall clock then cannot matter)",
+                        "deallocation and UB-freedom of the unsafe blocks are not decided by this check"],
+    },
     "C11": {
         "sub": "c11",
         "n": {"quick": 1500, "thorough": 60000},
